@@ -310,6 +310,25 @@ theorem orderedBy_iff (before : α → α → Bool) (l : List α) :
     simp only [orderedBy, Bool.and_eq_true, List.all_eq_true, Bool.not_eq_eq_eq_not, Bool.not_true,
       List.pairwise_cons, ih]
 
+/-- Judging by the printed comparison table is judging by `orderedBy`. -/
+theorem tableOrdered_pairsTable (before : α → α → Bool) (l : List α) :
+    tableOrdered (pairsTable before l) = orderedBy before l := by
+  induction l with
+  | nil => rfl
+  | cons x rest ih =>
+    simp only [pairsTable, orderedBy, ← ih, tableOrdered, List.all_append, List.all_map]
+    rfl
+
+theorem tableChain_chainTable (le : α → α → Bool) (l : List α) :
+    tableChain (chainTable le l) = true ↔ l.Pairwise (fun x y => le x y = true) := by
+  induction l with
+  | nil => simp [chainTable, tableChain]
+  | cons x rest ih =>
+    simp only [chainTable, tableChain, List.all_append, List.all_map, Bool.and_eq_true,
+      List.pairwise_cons] at ih ⊢
+    rw [ih]
+    simp [List.all_eq_true]
+
 /-- The executable "rearrangement" predicate is `List.Perm`. -/
 theorem isPermOf_iff [BEq α] [LawfulBEq α] (out inp : List α) :
     isPermOf out inp = true ↔ out.Perm inp := by
